@@ -1419,3 +1419,80 @@ def mckenzie_formula(P, rep, rule="EXPR.mckenzie"):
             n_ok += 1
     if n_ok == 2:
         rep.ok(rule, "slab plate model = McKenzie (1970) series (n = 1..%s), with and without adiabatic heating" % last, F.nloc(loop), F.qn)
+
+
+# ------------------------------------------------------------------------------------------------
+def polynomial_tables(P, rep, rule="EXPR.poly"):
+    """tian2019: each polynomial is evaluated with one table: loop bound, coefficient and exponent refer to the same coefficients"""
+    rep.rule(rule, "in the tian2019 water-content models every polynomial sum has the form sum_i T[i] * pow(x, T.size() - 1 - i) for i in "
+                   "[0, T.size()): the loop bound, the coefficient and the exponent are taken from one and the same table T (highest power "
+                   "first), and the four sums accumulate into four different variables")
+    n = 0
+    for F in sorted(P.funcs.values(), key=lambda f: f.qn):
+        if F.body is None or not F.qn.endswith("TianWaterContent::calculate_water_content"):
+            continue
+        R = lambda x: norm.render(P, x, nocast=True).replace(" ", "").replace("this->", "")
+        accs = {}
+        for L in F.walk(F.body):
+            if L.get("k") != "ForStmt":
+                continue
+            init, cond = L["c"][0], sc(L["c"][1])
+            iv = init["c"][0] if init is not None and init.get("k") == "DeclStmt" and init["c"] else None
+            if iv is None or cond is None or cond.get("op") != "<":
+                continue
+            bm = astq.member_call(P, cond["c"][1], "size")
+            if not bm:
+                continue
+            table = R(bm[0])
+            n += 1
+            problems = []
+            if not (iv.get("c") and sc(iv["c"][0]).get("k") == "IntegerLiteral" and int(sc(iv["c"][0])["v"]) == 0):
+                problems.append("the loop does not start at 0")
+            adds = [y for y in F.walk(L["c"][3]) if y.get("k") == "CompoundAssignOperator" and y.get("op") == "+="]
+            if len(adds) != 1:
+                problems.append("%d accumulations in the loop" % len(adds))
+            else:
+                y = adds[0]
+                acc = sc(y["c"][0])
+                rhs = sc(y["c"][1])
+                coef = pw = None
+                if rhs.get("k") == "BinaryOperator" and rhs.get("op") == "*":
+                    for a_, b_ in ((rhs["c"][0], rhs["c"][1]), (rhs["c"][1], rhs["c"][0])):
+                        s_ = astq.subscript(sc(a_))
+                        b0 = sc(b_)
+                        while b0 is not None and b0.get("k") == "ParenExpr":
+                            b0 = sc(b0["c"][0])
+                        if s_ and astq.is_ref_to(s_[1], iv["r"]) and b0 is not None and b0.get("k") == "CallExpr" and P.d(b0.get("callee")).get("qn") in ("std::pow", "pow"):
+                            coef, pw = s_, b0
+                if coef is None:
+                    problems.append("the term is not T[i] * pow(x, e): %s" % R(rhs)[:60])
+                else:
+                    if R(coef[0]) != table:
+                        problems.append("the coefficient is read from %s, the loop runs over %s" % (R(coef[0])[:40], table[:40]))
+                    ex = R(pw["c"][2])
+                    want = ["((%s.size()-1)-%s)" % (table, iv.get("n")), "(%s.size()-1-%s)" % (table, iv.get("n")), "(%s.size()-(1+%s))" % (table, iv.get("n")),
+                            "(%s.size()-(%s+1))" % (table, iv.get("n"))]
+                    if ex not in want:
+                        problems.append("the exponent is %s, expected %s.size() - 1 - %s" % (ex[:60], table[:40], iv.get("n")))
+                if acc is not None and acc.get("k") == "DeclRefExpr":
+                    for (other_key, other_loop) in accs.get(F.qn, []):
+                        if other_key != acc["r"]:
+                            continue
+                        # the two arms of one if-statement are alternatives, not two sums of one evaluation
+                        exclusive = False
+                        for a_ in F.ancestors(L):
+                            if a_.get("k") == "IfStmt" and len(a_["c"]) > 2 and a_["c"][2] is not None:
+                                in_then = lambda node, a_=a_: any(z is node for z in F.walk(a_["c"][1]))
+                                in_else = lambda node, a_=a_: any(z is node for z in F.walk(a_["c"][2]))
+                                if (in_then(L) and in_else(other_loop)) or (in_else(L) and in_then(other_loop)):
+                                    exclusive = True
+                        if not exclusive:
+                            problems.append("two sums accumulate into %s" % acc.get("n"))
+                    accs.setdefault(F.qn, []).append((acc["r"], L))
+            if problems:
+                rep.violation(rule, "%s: %s" % (F.qn.replace("WorldBuilder::Features::", ""), "; ".join(problems)), F.nloc(L), F.qn, R(L["c"][3])[:140],
+                              "a polynomial of the parameterisation is evaluated with the wrong powers or coefficients", key="%s|%s|%s" % (rule, F.qn, table[:30]),
+                              witness="a tian2019 water content model at 3 GPa")
+            else:
+                rep.ok(rule, "%s: sum over %s" % (F.qn.replace("WorldBuilder::Features::", ""), table), F.nloc(L), F.qn)
+    rep.floor(rule, n, 8, "polynomial sums in the tian2019 models")
